@@ -78,6 +78,10 @@ def run(ctx: Context) -> None:
     # by construction, an algebraically "equal" expansion r^2 - 2 r E[x] + E[x^2] is not (cancellation can make it zero or negative).  Shared with C07-R3.
     from . import c07
     ctx.rule(c07.r3_msm)
+    # "zero when every simulated member equals the real data" for the moment losses needs the 18 moments to be finite numbers: a NaN moment
+    # (constant or linear series) makes the difference NaN, not 0 (nan_to_num rule shared with C20)
+    from . import c20
+    ctx.rule(c20.moments)
 
 
 def r1_purity(ctx: Context) -> None:
